@@ -288,8 +288,19 @@ func ruleResponseTokenCoverage(c *Ctx, rule string) {
 func ruleBracketBeforeSection(c *Ctx, rule string) {
 	p := c.P
 	n := 0
+	cf := newCtxFlow(nil, func(f facts, b *ssa.BasicBlock, s int) facts {
+		var add []string
+		for _, sc := range successCalls(b, s) {
+			k := callKey(sc)
+			if (k == "(*Decoder).Special" || k == "(*Decoder).ExpectSpecial") && len(sc.Common().Args) == 2 {
+				if v, ok := constInt(sc.Common().Args[1]); ok && v == '[' {
+					add = append(add, "bracket-consumed")
+				}
+			}
+		}
+		return f.with(add...)
+	})
 	for _, fn := range p.SrcFuncs("imapclient") {
-		var gf *mustResult
 		k := 0
 		allInstrs(fn, func(i ssa.Instruction) {
 			call, ok := i.(ssa.CallInstruction)
@@ -304,25 +315,11 @@ func ruleBracketBeforeSection(c *Ctx, rule string) {
 			if fn.Name() == "readSectionSpec" || fn.Name() == "readSectionPart" {
 				return
 			}
-			if gf == nil {
-				gf = mustFlow(fn, facts{}, nil, func(f facts, b *ssa.BasicBlock, s int) facts {
-					var add []string
-					for _, sc := range successCalls(b, s) {
-						k := callKey(sc)
-						if (k == "(*Decoder).Special" || k == "(*Decoder).ExpectSpecial") && len(sc.Common().Args) == 2 {
-							if v, ok := constInt(sc.Common().Args[1]); ok && v == '[' {
-								add = append(add, "bracket-consumed")
-							}
-						}
-					}
-					return f.with(add...)
-				})
-			}
 			k++
 			n++
-			fs, _ := gf.at(i)
+			fs, _ := cf.at(i)
 			c.check(fs.has("bracket-consumed"), rule, fmt.Sprintf("%s→%s#%d", fnKey(fn), cal.Name(), k), i.Pos(),
-				"dominated by a successful Special('[') / ExpectSpecial('[')", "the section is parsed without consuming its opening '[': every such response fails with \"expected ']'\" and the data is never delivered")
+				"preceded on every path (through every caller) by a successful Special('[') / ExpectSpecial('[')", "the section is parsed without consuming its opening '[': every such response fails with \"expected ']'\" and the data is never delivered")
 		})
 	}
 	if n == 0 {
@@ -448,31 +445,33 @@ func ruleServerModeProvenance(c *Ctx, rule string) {
 		{"handleSearch", "writeSearch", []string{"not:enabled:IMAP4rev2", "not:local:extended"}},
 		{"handleSelect", "writeObsoleteRecent", []string{"not:enabled:IMAP4rev2"}},
 	} {
-		fn := p.Func("imapserver", "Conn", spec.fn)
-		if fn == nil {
-			c.unresolvedRoot("(*Conn)." + spec.fn)
+		callee := p.Func("imapserver", "Conn", spec.callee)
+		if callee == nil {
+			callee = p.Func("imapserver", "", spec.callee)
+		}
+		if callee == nil {
+			c.unresolvedRoot("imapserver " + spec.callee)
 			continue
 		}
-		gf := mustFlow(fn, facts{}, nil, capFacts)
-		var site *ssa.Call
-		allInstrs(fn, func(i ssa.Instruction) {
-			if call, ok := i.(*ssa.Call); ok && staticCallee(call) != nil && staticCallee(call).Name() == spec.callee {
-				site = call
-			}
-		})
-		if site == nil {
-			c.fail(rule, spec.fn+": "+spec.callee, fn.Pos(), spec.callee+" is no longer called by "+spec.fn)
+		sites := callSitesOf(p, callee)
+		if len(sites) == 0 {
+			c.unresolvedRoot("call sites of " + spec.callee)
 			continue
 		}
-		fs, _ := gf.at(site)
-		missing := []string{}
-		for _, w := range spec.want {
-			if !fs.has(w) {
-				missing = append(missing, w)
+		cf := newCtxFlow(nil, capFacts)
+		var missing []string
+		var pos token.Pos
+		for _, site := range sites {
+			fs, _ := cf.at(site)
+			pos = site.Pos()
+			for _, w := range spec.want {
+				if !fs.has(w) {
+					missing = append(missing, w)
+				}
 			}
 		}
-		c.check(len(missing) == 0, rule, spec.fn+": "+spec.callee+" only in legacy mode", site.Pos(), "reached only on the edges "+strings.Join(spec.want, " ∧ "),
-			"the legacy response form can be written although "+strings.Join(missing, ", ")+" does not hold: a client that enabled IMAP4rev2 (or asked for RETURN options) gets a response form it does not expect")
+		c.check(len(missing) == 0, rule, spec.fn+": "+spec.callee+" only in legacy mode", pos, "reached only on the edges "+strings.Join(spec.want, " ∧ ")+" (through every caller)",
+			"the legacy response form can be written although "+strings.Join(uniq(missing), ", ")+" does not hold: a client that enabled IMAP4rev2 (or asked for RETURN options) gets a response form it does not expect")
 	}
 }
 
